@@ -26,7 +26,7 @@ PROP = "C18"
 FILES = ["Factorio/Geometry.v", "Proofs/GeometryProofs.v", "Props/C18.v", "Props/C09.v"]
 TYPES = ["small", "medium", "big", "substation"]
 # the root cause G1 is listed once per property it breaks: under C08 as G1, here as G1-C18
-LOCAL_ID = {"G1": "G1-C18"}
+LOCAL_ID = {"G1": "G1-C18", "S8": "S8-C18"}
 
 
 def config_rows():
